@@ -340,3 +340,215 @@ func Equivalent(code, spec *Formula) (bool, string) {
 	}
 	return true, fmt.Sprintf("%d atoms, all consistent valuations agree", len(atoms))
 }
+
+// collectTermAtoms adds the atoms of every ite-condition occurring anywhere in t.
+func collectTermAtoms(t *sym.Term, set map[*sym.Term]bool, seen map[*sym.Term]bool) {
+	if t == nil || seen[t] {
+		return
+	}
+	seen[t] = true
+	if t.Op == "ite" {
+		FTerm(t.Args[0]).atoms(set)
+	}
+	for _, a := range t.Args {
+		collectTermAtoms(a, set, seen)
+	}
+}
+
+// ResolveIte rebuilds t with every ite-node decided by the valuation.
+func ResolveIte(t *sym.Term, asg map[*sym.Term]bool) *sym.Term {
+	memo := map[*sym.Term]*sym.Term{}
+	var rec func(t *sym.Term) *sym.Term
+	rec = func(t *sym.Term) *sym.Term {
+		if len(t.Args) == 0 {
+			return t
+		}
+		if r, ok := memo[t]; ok {
+			return r
+		}
+		var r *sym.Term
+		if t.Sort == sym.Bool && t.Op != "ite" && t.Op != "not" {
+			if v, ok := asg[sym.Canon(t)]; ok {
+				r = sym.ConstBool(v)
+				memo[t] = r
+				return r
+			}
+		}
+		if t.Op == "ite" {
+			if FTerm(t.Args[0]).eval(asg) {
+				r = rec(t.Args[1])
+			} else {
+				r = rec(t.Args[2])
+			}
+		} else {
+			args := make([]*sym.Term, len(t.Args))
+			same := true
+			for i, a := range t.Args {
+				args[i] = rec(a)
+				if args[i] != a {
+					same = false
+				}
+			}
+			if same {
+				r = t
+			} else {
+				r = absint.Rebuild(t, args)
+			}
+		}
+		memo[t] = r
+		return r
+	}
+	return rec(t)
+}
+
+// Valuations enumerates the consistent valuations of the atoms of the given formulas and terms.
+func Valuations(fs []*Formula, ts []*sym.Term, yield func(asg map[*sym.Term]bool, describe func() string) bool) error {
+	set := map[*sym.Term]bool{}
+	for _, f := range fs {
+		f.atoms(set)
+	}
+	seen := map[*sym.Term]bool{}
+	for _, t := range ts {
+		collectTermAtoms(t, set, seen)
+	}
+	atoms := make([]*sym.Term, 0, len(set))
+	for a := range set {
+		atoms = append(atoms, a)
+	}
+	sort.Slice(atoms, func(i, j int) bool { return atoms[i].String() < atoms[j].String() })
+	if len(atoms) > 22 {
+		return fmt.Errorf("too many atoms (%d) for a normal-form comparison", len(atoms))
+	}
+	groups := map[*sym.Term][]*sym.Term{}
+	cmps := map[*sym.Term]intCmp{}
+	for _, a := range atoms {
+		if k, ok := asIntCmp(a); ok {
+			cmps[a] = k
+			groups[k.x] = append(groups[k.x], a)
+		}
+	}
+	asg := map[*sym.Term]bool{}
+	describe := func() string {
+		var parts []string
+		for _, a := range atoms {
+			s := a.String()
+			if len(s) > 120 {
+				s = s[:120] + "…"
+			}
+			if !asg[a] {
+				s = "!" + s
+			}
+			parts = append(parts, s)
+		}
+		return "{" + strings.Join(parts, "; ") + "}"
+	}
+	for m := 0; m < 1<<len(atoms); m++ {
+		for i, a := range atoms {
+			asg[a] = m&(1<<i) != 0
+		}
+		if !consistent(asg, groups, cmps) {
+			continue
+		}
+		if !yield(asg, describe) {
+			return nil
+		}
+	}
+	return nil
+}
+
+// ValuesUnder checks that, under every consistent valuation satisfying cond,
+// got[i] resolves to the same normal form as want[i].
+func ValuesUnder(cond *Formula, got, want []*sym.Term) (bool, string) {
+	all := append(append([]*sym.Term(nil), got...), want...)
+	for i, g := range got {
+		if g == nil {
+			return false, fmt.Sprintf("value %d is not a term", i)
+		}
+	}
+	msg := ""
+	n := 0
+	err := Valuations([]*Formula{cond}, all, func(asg map[*sym.Term]bool, describe func() string) bool {
+		if !cond.eval(asg) {
+			return true
+		}
+		n++
+		for i := range got {
+			g, w := ResolveIte(got[i], asg), ResolveIte(want[i], asg)
+			if !sym.Equal(g, w) {
+				gs, ws := g.String(), w.String()
+				if len(gs) > 300 {
+					gs = gs[:300] + "…"
+				}
+				if len(ws) > 300 {
+					ws = ws[:300] + "…"
+				}
+				msg = fmt.Sprintf("value %d is %s, expected %s, when %s", i, gs, ws, describe())
+				return false
+			}
+		}
+		return true
+	})
+	if err != nil {
+		return false, err.Error()
+	}
+	if msg != "" {
+		return false, msg
+	}
+	if n == 0 {
+		return false, "the condition is unsatisfiable (vacuous)"
+	}
+	return true, fmt.Sprintf("%d valuations", n)
+}
+
+// FNil is the condition under which a (possibly merged) pointer / interface / slice value is nil.
+func FNil(v absint.Val) (*Formula, bool) {
+	switch x := v.(type) {
+	case *absint.Choice:
+		a, oka := FNil(x.A)
+		b, okb := FNil(x.B)
+		if !oka || !okb {
+			return nil, false
+		}
+		return fIte(FTerm(x.Cond), a, b), true
+	}
+	if isNilVal(v) {
+		return fConst(true), true
+	}
+	if isNonNilVal(v) {
+		return fConst(false), true
+	}
+	return nil, false
+}
+
+// choiceAtoms collects the atoms of the conditions of a merged value.
+func choiceAtoms(v absint.Val, set map[*sym.Term]bool) {
+	if c, ok := v.(*absint.Choice); ok {
+		FTerm(c.Cond).atoms(set)
+		choiceAtoms(c.A, set)
+		choiceAtoms(c.B, set)
+	}
+}
+
+// resolveChoice picks the alternative of a merged value selected by the valuation.
+func resolveChoice(v absint.Val, asg map[*sym.Term]bool) absint.Val {
+	for {
+		c, ok := v.(*absint.Choice)
+		if !ok {
+			return v
+		}
+		if FTerm(c.Cond).eval(asg) {
+			v = c.A
+		} else {
+			v = c.B
+		}
+	}
+}
+
+// fAtomsOf builds a formula mentioning the given atoms (so that Valuations enumerates them).
+func fAtomsOf(set map[*sym.Term]bool) *Formula {
+	var s []*Formula
+	for a := range set {
+		s = append(s, &Formula{Kind: "atom", Atom: a})
+	}
+	return &Formula{Kind: "or", Sub: s}
+}
